@@ -298,6 +298,9 @@ pub proof fn lemma_div_self(x: real) requires x != 0real ensures x / x == 1real 
 pub proof fn lemma_div_mul(x: real, y: real) requires y != 0real ensures (x / y) * y == x {
     assert((x / y) * y == x) by (nonlinear_arith) requires y != 0real;
 }
+pub proof fn lemma_mul_div_cancel(x: real, y: real) requires y != 0real ensures (x * y) / y == x {
+    assert((x * y) / y == x) by (nonlinear_arith) requires y != 0real;
+}
 pub proof fn lemma_sqrt_zero() ensures sqrt_r(0real) == 0real {
     axiom_sqrt(0real);
     let s = sqrt_r(0real);
